@@ -281,7 +281,7 @@ def instances(tier, seed):
         yield 'h_canon_symkeys', dict(width=width, nk=2)
     if tier == 'thorough':
         yield 'h_canon_symkeys', dict(width=3, nk=3)
-    for (w, win, pos) in ([(32, 4, 0), (267, 4, 100)] if tier == 'quick' else
+    for (w, win, pos) in ([(32, 4, 0), (64, 4, 30)] if tier == 'quick' else
                           [(w, 6, p) for w in (16, 32, 64, 256, 267, 1023) for p in (0, (w - 6) // 2, w - 6)]):
         yield 'h_canon_symkeys', dict(width=w, nk=2, win=win, pos=pos)
     # parsers: every valid label-kind assignment x every antichain of pruned sub-trees
